@@ -22,10 +22,15 @@ pub mod util {
     pub(crate) fn eprint_err<E: VErr>(error_code: ErrorCode, msg: &str, err: &E)
         requires
             reportable(error_code), //@label eprint_err.perm.reportable C19
+        ensures reported(error_code),
     { unimplemented!() }
+    /// token fact (C19 / C13, "if" direction): a problem was handed to the error channel with this code - only eprint_err /
+    /// eprint_msg establish it (unit `errchan`: both serve the configured channel)
+    pub uninterp spec fn reported(code: ErrorCode) -> bool;
     //@ sig src/util.rs fn eprint_msg
     //@   props C13,C19
     //@   req[eprint_msg.perm.reportable] reportable(error_code)
+    //@   ens reported(error_code)
 }
 pub mod deferred_now {
     use super::*;
@@ -74,11 +79,13 @@ pub mod filter {
     /// token fact: only a call of the line filter's write establishes it
     pub uninterp spec fn filter_called() -> bool;
     pub uninterp spec fn filter_called_from(origin: int) -> bool;
+    /// oracle: the outcome of the line filter's write
+    pub uninterp spec fn filter_result(record: &Record) -> std::io::Result<()>;
     pub trait LogLineFilter: Send + Sync {
-        fn write(&self, now: &mut DeferredNow, record: &Record, log_line_writer: &dyn LogLineWriter) -> std::io::Result<()>
+        fn write(&self, now: &mut DeferredNow, record: &Record, log_line_writer: &dyn LogLineWriter) -> (r: std::io::Result<()>)
             requires
                 filter_ok(record), //@label LogLineFilter::write.perm C02,C13
-            ensures filter_called(), filter_called_from(old(now).origin()), final(now).origin() == old(now).origin(),
+            ensures filter_called(), filter_called_from(old(now).origin()), final(now).origin() == old(now).origin(), r == filter_result(record),
         ;
     }
 }
@@ -92,11 +99,15 @@ pub mod primary_writer {
     pub uninterp spec fn pw_written() -> bool;
     pub uninterp spec fn pw_written_from(origin: int) -> bool;
     pub uninterp spec fn pw_flushed() -> bool;
+    /// oracle: the outcome of the primary writer's write
+    pub uninterp spec fn pw_result(record: &Record) -> std::io::Result<()>;
     impl PrimaryWriter {
         //@ sig src/primary_writer.rs impl PrimaryWriter / fn write
         //@   props C02,C13
         //@   req[PrimaryWriter::write.perm] pw_ok(record)
         //@   ens pw_written() && pw_written_from(old(now).origin()) && final(now).origin() == old(now).origin()
+        //@   ret r
+        //@   ens r == pw_result(record)
         //@ sig src/primary_writer.rs impl PrimaryWriter / fn flush
         //@   ens pw_flushed()
     }
@@ -115,15 +126,17 @@ pub mod writers {
     pub uninterp spec fn ow_written(wid: int) -> bool;
     pub uninterp spec fn ow_written_from(wid: int, origin: int) -> bool;
     pub uninterp spec fn ow_flushed(wid: int) -> bool;
+    /// oracle: the outcome of handing the record to the additional writer with this identity
+    pub uninterp spec fn ow_result(wid: int, record: &Record) -> std::io::Result<()>;
     /// SHIM: the methods of `trait LogWriter` that FlexiLogger calls
     pub trait LogWriter: Send + Sync {
         spec fn max_log_level_spec(&self) -> log::LevelFilter;
         /// identity of a writer object
         spec fn wid(&self) -> int;
-        fn write(&self, now: &mut DeferredNow, record: &Record) -> std::io::Result<()>
+        fn write(&self, now: &mut DeferredNow, record: &Record) -> (r: std::io::Result<()>)
             requires
                 ow_ok(self.wid(), record), //@label LogWriter::write.perm C13
-            ensures ow_written(self.wid()), ow_written_from(self.wid(), old(now).origin()), final(now).origin() == old(now).origin(),
+            ensures ow_written(self.wid()), ow_written_from(self.wid(), old(now).origin()), final(now).origin() == old(now).origin(), r == ow_result(self.wid(), record),
         ;
         fn flush(&self) -> std::io::Result<()>
             ensures ow_flushed(self.wid());
@@ -217,6 +230,22 @@ pub mod flexi_logger {
     //@   ens[log.post.every_named_writer] forall|k: int| is_brace(record_target(record)) && 0 <= k < pieces(record_target(record)).len() && pieces(record_target(record))[k] != "_Default"@
     //@       && (#[trigger] str_lookup(self.writers(), pieces(record_target(record))[k])) is Some ==> super::writers::ow_written(str_lookup(self.writers(), pieces(record_target(record))[k])->Some_0.wid())
     //@   ens[log.post.default_channel] self.primary_allowed(record) ==> (if self.has_filter() { super::filter::filter_called() } else { super::primary_writer::pw_written() })
+    //@   props C19,C13
+    //@   loop 1 inv[log.loop.unknown_reported] forall|k: int| 0 <= k < it.index@ && pieces(record_target(record))[k] != "_Default"@ && (#[trigger] str_lookup(self.writers(), pieces(record_target(record))[k])) is None ==> super::util::reported(ErrorCode::WriterSpec)
+    //@   loop 1 inv[log.loop.failure_reported] forall|k: int| 0 <= k < it.index@ && pieces(record_target(record))[k] != "_Default"@ && (#[trigger] str_lookup(self.writers(), pieces(record_target(record))[k])) is Some
+    //@       && super::writers::ow_result(str_lookup(self.writers(), pieces(record_target(record))[k])->Some_0.wid(), record) is Err ==> super::util::reported(ErrorCode::Write)
+    //@   ens[log.post.unknown_name_reported] forall|k: int| is_brace(record_target(record)) && 0 <= k < pieces(record_target(record)).len() && pieces(record_target(record))[k] != "_Default"@
+    //@       && (#[trigger] str_lookup(self.writers(), pieces(record_target(record))[k])) is None ==> super::util::reported(ErrorCode::WriterSpec)
+    //@   ens[log.post.writer_failure_reported] forall|k: int| is_brace(record_target(record)) && 0 <= k < pieces(record_target(record)).len() && pieces(record_target(record))[k] != "_Default"@
+    //@       && (#[trigger] str_lookup(self.writers(), pieces(record_target(record))[k])) is Some
+    //@       && super::writers::ow_result(str_lookup(self.writers(), pieces(record_target(record))[k])->Some_0.wid(), record) is Err ==> super::util::reported(ErrorCode::Write)
+    //@   ens[log.post.primary_failure_reported] self.primary_allowed(record) && (if self.has_filter() { super::filter::filter_result(record) } else { super::primary_writer::pw_result(record) }) is Err ==> super::util::reported(ErrorCode::Write)
+    //@   closure ~writing log line to custom writer ## sig |e: std::io::Error| -> (u: ())
+    //@   closure ~writing log line to custom writer ## req super::util::reportable(ErrorCode::Write)
+    //@   closure ~writing log line to custom writer ## ens super::util::reported(ErrorCode::Write)
+    //@   closure ~writing log line failed ## sig |e: std::io::Error| -> (u: ())
+    //@   closure ~writing log line failed ## req super::util::reportable(ErrorCode::Write)
+    //@   closure ~writing log line failed ## ens super::util::reported(ErrorCode::Write)
     //@   props C20
     //@   loop 1 inv[log.loop.one_now] super::deferred_now::is_origin(now.origin()) && forall|k: int| 0 <= k < it.index@ && pieces(record_target(record))[k] != "_Default"@ && (#[trigger] str_lookup(self.writers(), pieces(record_target(record))[k])) is Some
     //@       ==> super::writers::ow_written_from(str_lookup(self.writers(), pieces(record_target(record))[k])->Some_0.wid(), now.origin())
